@@ -214,4 +214,45 @@ def u4(rep, F):
                                     "%s cuts its input with .%s(%d) and never rejects longer input: surplus "
                                     "lines/characters are accepted and dropped" % (b["path"], n["m"], lim),
                                     b["file"], n.get("ln")))
+        # the same cut written as a loop: `for x in <input> { if out.len() >= n { break } .. out.push(..) }`
+        for n in walk(b["body"]):
+            if n.get("k") != "for":
+                continue
+            if not any(x.get("k") == "local" and x.get("id") == pid for x in walk(n.get("iter"))):
+                continue
+            for c in walk(n["body"]):
+                if c.get("k") != "if" or c.get("else") is not None:
+                    continue
+                t = c.get("then")
+                inner = (t.get("stmts") or []) + ([t["expr"]] if t.get("expr") is not None else []) \
+                    if isinstance(t, dict) and t.get("k") == "block" else [t]
+                inner = [x.get("e") if isinstance(x, dict) and x.get("k") in ("semi", "stmt") and x.get("e") else x
+                         for x in inner]
+                if not (len(inner) == 1 and isinstance(inner[0], dict) and inner[0].get("k") == "break"):
+                    continue
+                cc = c.get("cond")
+                while isinstance(cc, dict) and cc.get("k") == "block" and not cc.get("stmts"):
+                    cc = cc.get("expr")
+                if not (isinstance(cc, dict) and cc.get("k") == "bin" and cc.get("op") in (">", ">=")):
+                    continue
+                lim = lit_val(cc.get("r"))
+                l_ = cc.get("l")
+                if not isinstance(lim, int) or isinstance(lim, bool):
+                    continue
+                if not (isinstance(l_, dict) and l_.get("k") == "mcall" and l_.get("m") == "len"):
+                    continue
+                if cc["op"] == ">":
+                    lim += 1
+                r["instances"] += 1
+                checked = False
+                for c2 in walk(b["body"]):
+                    if c2 is not cc and c2.get("k") == "bin" and c2.get("op") in (">", ">=") and \
+                            lit_val(c2.get("r")) in (lim, lim + 1) and \
+                            any(x.get("k") == "mcall" and x.get("m") in ("count", "len") for x in walk(c2["l"])):
+                        checked = True
+                if not checked:
+                    rep.add(Finding("U4", b["path"], "loop-cap(%d)" % lim,
+                                    "%s stops reading its input after %d elements (`break` once the collection "
+                                    "holds %d) and never rejects longer input: surplus lines are accepted and "
+                                    "dropped" % (b["path"], lim, lim), b["file"], c.get("ln")))
     return r
